@@ -513,7 +513,7 @@ pub fn gen(prop: &str, rng: &mut Rng, quick: bool, st: &mut Stats) -> Option<Vec
             }
         }
         "C15" => {
-            let archives = sample_archives(rng, true, st);
+            let archives = sample_archives(rng, quick, st);
             for (k, b) in archives.iter().enumerate() {
                 let mode = if k % 2 == 0 { "sync" } else { "async" };
                 c.push(format!("chk_fault open {mode} {} u_u", hex_bytes(b)));
